@@ -5,3 +5,4 @@ import DiplomatModel.Slices
 import DiplomatModel.Write
 import DiplomatModel.Config
 import DiplomatModel.Cfg
+import DiplomatModel.Rename
